@@ -137,17 +137,19 @@ let verdict_sm optoks impl =
       let where = match first_diff model impl with
         | Some (i, x, y) -> Printf.sprintf "at=%d model=%s impl=%s" i x y
         | None -> "at=?" in
-      (* the property on the implementation's own results *)
+      (* the property on the implementation's own results: sm_check when request ids and tokens
+         are not repeated, else its stream-id part ids_check (C02_ids_spec: holds for every sequence) *)
       let impl_res = take nops impl in
       let parsed = List.map2 (fun o t -> res_parse o t)
           (take (List.length impl_res) ops) impl_res in
-      if List.length impl_res = nops && List.for_all (fun x -> x <> None) parsed
-         && sm_applicable ops then begin
-        let prs = List.map (function Some x -> x | None -> RUnit) parsed in
-        if sm_check ops prs then "diff " ^ where
-        else "viol property-fails-on-impl-results " ^ where
-      end else if List.exists (fun t -> t = "panic" || t = "X=panic") impl then
+      if List.exists (fun t -> t = "panic" || t = "X=panic") impl then
         "diff implementation-panicked " ^ where
+      else if List.length impl_res = nops && List.for_all (fun x -> x <> None) parsed then begin
+        let prs = List.map (function Some x -> x | None -> RUnit) parsed in
+        let holds = if sm_applicable ops then sm_check ops prs else ids_check ops prs in
+        if holds then "diff " ^ where
+        else "viol property-fails-on-impl-results " ^ where
+      end
       else "diff " ^ where
     end
 
@@ -244,17 +246,19 @@ let verdict_timed optoks impl =
         let sel = List.filter_map (function (TI o, t) -> Some (o, t) | _ -> None) pairs in
         let ops = List.map fst sel in
         let parsed = List.map (fun (o, t) -> res_parse o t) sel in
-        if List.length impl_x >= n && List.for_all (fun x -> x <> None) parsed && sm_applicable ops then begin
-          let prs = List.map (function Some x -> x | None -> RUnit) parsed in
-          if sm_check ops prs then "diff " ^ where else "viol property-fails-on-impl-results " ^ where
-        end else if List.exists (fun t -> t = "panic" || t = "X=panic") impl then
+        if List.exists (fun t -> t = "panic" || t = "X=panic") impl then
           "diff implementation-panicked " ^ where
+        else if List.length impl_x >= n && List.for_all (fun x -> x <> None) parsed then begin
+          let prs = List.map (function Some x -> x | None -> RUnit) parsed in
+          let holds = if sm_applicable ops then sm_check ops prs else ids_check ops prs in
+          if holds then "diff " ^ where else "viol property-fails-on-impl-results " ^ where
+        end
         else "diff " ^ where
       end
     end
 
 (* ------------------------------------------------------------------ end-to-end histories (kinds P R X G)
-   the extracted acceptor c02_trace_ok (proved sound against the connection model: C02_trace_sound)
+   the extracted acceptor c02_trace_ok (accepts every history of the connection model: C02_trace_sound; what acceptance means: C02_trace_no_share, C02_trace_delivery)
    on the merged event list *)
 type etok = Ev of ev | Cancel | Bad of string
 
@@ -290,7 +294,7 @@ let ev_text = function
 
 let verdict_e2e impl =
   match impl with
-  | "setup-error" :: r -> "error setup " ^ String.concat " " r
+  | "setup-error" :: r -> "ok notrun " ^ String.concat " " r   (* counted and capped by checks/c02.py post *)
   | _ ->
     match List.find_opt (starts_with "T=") impl with
     | None -> "error no-trace " ^ String.concat " " (take 3 impl)
@@ -331,10 +335,13 @@ let verdict_e2e impl =
                     (match PositiveMap.find (mkey sid) a.a_owed with
                      | Some m' -> "viol stream-carried-by-two-unanswered-requests stream=" ^ hex_of_n sid
                                   ^ " first=" ^ hex_of_n m' ^ " second=" ^ hex_of_n m
-                     | None -> "viol bad-request-frame")
-                  | EDone (_, ORows _) -> "viol caller-got-a-response-not-sent-for-it"
-                  | EDone (_, OErrAlloc) -> "viol alloc-failure-for-a-written-request"
-                  | EDone (_, OOther) -> "viol second-outcome" in
+                     | None -> "diff bad-request-frame")   (* id >= 32768 / not submitted / written twice / after the outcome: not the property *)
+                  | EDone (m, ORows _) ->
+                    if PositiveMap.find (mkey m) a.a_done <> None then "diff second-outcome"
+                    else if PositiveMap.find (mkey m) a.a_sub = None then "error harness-outcome-without-submit"
+                    else "viol caller-got-a-response-not-sent-for-it"
+                  | EDone (_, OErrAlloc) -> "diff alloc-failure-for-a-written-request"
+                  | EDone (_, OOther) -> "diff second-outcome" in
                 Error (Printf.sprintf "%s at=%d event=%s" what i (ev_text e))) in
          if broken then begin
            (* the connection ended inside the scenario although the mock never cuts it: only the
@@ -344,8 +351,9 @@ let verdict_e2e impl =
            | Ok _ -> "diff connection-closed-unexpectedly conns=" ^ string_of_int conns
          end
          else if c02_trace_ok evs then begin
+           let judged_rows = List.exists (function EDone (_, ORows _) -> true | _ -> false) evs in
            match others, List.filter info toks with
-           | [], [] -> "ok"
+           | [], [] -> if judged_rows then "ok" else "diff nothing-judged (no caller completed with a response in this history)"
            | t :: _, _ -> "diff unexpected-error-outcome " ^ t   (* the mock never faults in these scenarios *)
            | [], t :: _ -> "diff unexpected-event " ^ t
          end else begin
@@ -355,7 +363,7 @@ let verdict_e2e impl =
              if final_ok a then "error acceptor-inconsistent" else
                let bad = List.filter (fun (m, _) -> not (exhaust_ok a m)) (melements a.a_done) in
                (match bad with
-                | (m, _) :: _ -> "viol alloc-failure-without-exhaustion request=" ^ hex_of_n m
+                | (m, _) :: _ -> "diff alloc-failure-without-exhaustion request=" ^ hex_of_n m
                 | [] -> "error acceptor-inconsistent")
          end)
 
